@@ -153,9 +153,10 @@ Section ShiftInstr.
   Proof. unfold i_43_44. sh_auto. Qed.
   Lemma i_45_shift opc ip0 ip s : i_45 P opc ip0 ip (shift d s) = sres_shift d (i_45 P opc ip0 ip s).
   Proof. unfold i_45. sh_auto. Qed.
-  Lemma i_46_shift opc ip0 ip s : i_46 opc ip0 ip (shift d s) = sres_shift d (i_46 opc ip0 ip s).
+  Lemma i_46_shift opc ip0 ip s : i_46 P opc ip0 ip (shift d s) = sres_shift d (i_46 P opc ip0 ip s).
   Proof.
-    unfold i_46. unfold scount. sh_cbn. destruct (vcount (st_stack s) =? 0); [reflexivity|].
+    unfold i_46. destruct (op_u32 P ip); [|reflexivity]. unfold top_offset. sh_cbn.
+    destruct (st_calls s); [reflexivity|].
     rewrite close_upvalues_from_shift. destruct (close_upvalues_from _ s); reflexivity.
   Qed.
 End ShiftInstr.
